@@ -16,8 +16,8 @@ Part C  rotation arithmetic: result in {0,90,180,270}, equal to old + angle modu
         composition; only /Rotate changes under `rotate`.
 Part D  what `copyPage` preserves: rotation, content, every resource category, the MediaBox
         with its origin and the CropBox (full statement since the repairs of C16-F1 / C16-F2;
-        regression witnesses about the pre-repair `copyPageOld`); i32 overflow of
-        `rotation + angle` (C16-F3).
+        regression witnesses about the pre-repair `copyPageOld`).  The code composes rotations as
+        `rotatedRepaired` since the repair of C16-F3; `rotated` is the pre-repair i32 addition.
 -/
 namespace OxiVerif.C16
 
@@ -721,9 +721,11 @@ theorem C16_rotate_90_then_270 (r : Int) (hr : r % 90 = 0) (hlo : I32_MIN ≤ r)
 
 example : rotated (-450) 90 = .ok 0 ∧ rotated 810 270 = .ok 0 ∧ rotated 270 180 = .ok 90 := by decide
 
-/-- WITNESS (C16-F3, debug build): `parsed_page.rotation + angle.to_degrees()` is an `i32`
-addition; a source /Rotate 2147483610 (a multiple of 90) rotated by 90 overflows → panic. -/
-theorem C16_witness_rotation_overflow : rotated 2147483610 90 = .panic ∧ (2147483610 : Int) % 90 = 0 := by
+/-- REGRESSION WITNESS (C16-F3, fixed by 4d24d5f3; debug build): before the repair
+`parsed_page.rotation + angle.to_degrees()` was an `i32` addition; a source /Rotate 2147483610
+(a multiple of 90) rotated by 90 overflowed → panic.  The repaired composition answers 180. -/
+theorem C16_witness_rotation_overflow : rotated 2147483610 90 = .panic ∧ (2147483610 : Int) % 90 = 0 ∧
+    rotatedRepaired 2147483610 90 = .ok 180 := by
   decide
 
 /-- the overflow-free form agrees with the current code wherever that answers … -/
@@ -754,7 +756,7 @@ example : rotatedRepaired 2147483610 90 = .ok 180 ∧ rotated 2147483610 90 = .p
 /-- what `rotate` does to one page -/
 def RotRel (idx : List Nat) (angle : Int) (i : Nat) (p : Src) (o : Out) : Prop :=
   o = { copyPage p with rotation := o.rotation } ∧
-  (if idx.contains i then rotated p.rotation angle = .ok o.rotation else o.rotation = p.rotation)
+  (if idx.contains i then rotatedRepaired p.rotation angle = .ok o.rotation else o.rotation = p.rotation)
 
 /-- ROTATE changes nothing but /Rotate, and /Rotate only on the selected pages: the output has
 one page per input page, in order; each is the plain copy with (for selected indices) the
